@@ -45,10 +45,10 @@ func libGoroutines(markers ...string) (int, []string) {
 		for _, m := range markers {
 			if strings.Contains(g, m) {
 				n++
-				if len(sample) < 4 {
+				if len(sample) < 14 {
 					ls := strings.Split(g, "\n")
-					if len(ls) > 9 {
-						ls = ls[:9]
+					if len(ls) > 13 {
+						ls = ls[:13]
 					}
 					sample = append(sample, strings.Join(ls, "\n"))
 				}
